@@ -95,6 +95,8 @@ def run_program(prog, strategy, trace=False, tick_budget=2):
                         with console.capture() as cap:
                             console.print("\n".join(label_text(x) for x in labels))
                         c["captured"] = labels_in(cap.get())
+                    elif k == "export":
+                        (console.export_html if op.get("html") else console.export_text)(clear=False)
                     elif k == "update":
                         rows = [F(op["v"], i) for i in range(1, op["h"] + 1)]
                         state["frame"] = rows
@@ -153,7 +155,7 @@ def random_program(rng, display):
     def ops_for():
         ops = []
         for _ in range(rng.randint(1, 2)):
-            kinds = ["print", "print", "log", "capture"]
+            kinds = ["print", "print", "log", "capture", "export"]
             if display == "live":
                 kinds += ["update", "update", "refresh"]
             elif display == "progress":
@@ -165,6 +167,8 @@ def random_program(rng, display):
             elif k == "log":
                 pid[0] += 1
                 ops.append(dict(k=k, id=pid[0]))
+            elif k == "export":
+                ops.append(dict(k=k, html=rng.random() < 0.5))
             elif k == "update":
                 fv[0] += 1
                 ops.append(dict(k=k, v=fv[0], h=rng.choice([1, 2, 3, 4])))
@@ -175,7 +179,7 @@ def random_program(rng, display):
 
 
 def run(chk: Check):
-    chk.rule = ("a case is (program, schedule): programs of 2-4 threads x 1-2 calls over print / log / capture / update+refresh / refresh / "
+    chk.rule = ("a case is (program, schedule): programs of 2-4 threads x 1-2 calls over print / log / capture / export / update+refresh / refresh / "
                 "advance with no display, a Live or a Progress (optionally with its refresh thread); schedules by DFS with pre-emption "
                 "bound 2 over lock / write / event yield points, DFS bound 1 over every executed line of console.py, live.py, live_render.py, "
                 "progress.py, and seeded random / PCT schedules; distinct by recorded history; non-trivial = at least two threads wrote")
